@@ -2,7 +2,7 @@
 C16 — derived row/UDT mappings bind fields by name regardless of database order.
 
 Model: `ScyllaVerif/Model/Derive.lean`, a generic interpreter of the code the derive macros generate.  Every
-theorem below is about that interpreter for EVERY descriptor (any number of fields, any attribute combination
+statement below is about that interpreter for EVERY descriptor (any number of fields, any attribute combination
 the macro's `validate` accepts — the only validity condition used is its name-collision check `ValidNames`),
 every database field list and every value assignment.  Helper lemmas: `ScyllaVerif/Proofs/Derive.lean`.
 -/
@@ -3528,7 +3528,7 @@ theorem source_shape_pinned :
 
 /-- the model-side counterpart of 6 of the flag-guarded emissions pinned above (and of the four
 `default_when_null` conditions) — the link to the source is string membership in the pinned lists, the content is a
-theorem for ALL descriptors and inputs: the interpreter returns the error only under the flag that guards its
+statement proved for ALL descriptors and inputs: the interpreter returns the error only under the flag that guards its
 emission in the source:
 `NoSuchFieldInUdt` / `ExcessFieldInUdt` only with `forbid_excess_udt_fields`; `FieldNameMismatch` /
 `ColumnNameMismatch` only without `skip_name_checks`; and `default_when_null` is what turns a null into the
